@@ -19,4 +19,6 @@ for k in sorted(last, key=key):
     if viol:
         m = re.match(r"class=(\S+) site=(.+?) detail=", viol[0])
         first = "`%s` / `%s`" % (m.group(1), m.group(2)) if m else viol[0][:80]
+    if meta.get("note_current_tree"):
+        first = (first + " - " if first else "") + meta["note_current_tree"]
     print("| %s | %s | %s (%s) | %s | %s |" % (k, meta["breaks_property"], meta["change"].replace("|", "/"), meta["needs_to_manifest"].replace("|", "/"), res, first))
